@@ -445,6 +445,30 @@ pub fn gen_driver(prop: &str, rng: &mut Rng, sh: &mut Shards, out: &str, thoroug
                     progs.push((Program { data: Vec::new(), items, interp: false, stdin, note: "services".into() }, Layout::plain()));
                 }
             }
+            // input lines around and beyond 64 KiB (a length that no longer fits 16 bits), into small and large buffers,
+            // read by the character service first or by the line service at once
+            for (k, len) in [65535usize, 65536, 65539, 65536 + 254, 131072 + 5].iter().enumerate() {
+                let cap = [8i32, 255, 3, 254, 9][k];
+                let mut items: Vec<Item> = vec![Item::Label("start".into())];
+                items.push(mov16("dx", 0x0200));
+                items.push(mov16("bx", 0x0200));
+                items.push(Item::Ins(Ins::Mov { w: 8, dst: Opnd::Mem { seg: "", base: "bx", index: "", disp: 0, has_disp: false }, src: Opnd::Imm(cap) }));
+                items.push(Item::Ins(Ins::Mov { w: 8, dst: Opnd::Mem { seg: "", base: "bx", index: "", disp: 1, has_disp: true }, src: Opnd::Imm(0x7F) }));
+                let mut stdin: Vec<ScriptLine> = Vec::new();
+                if k % 2 == 1 {
+                    items.push(mov16("ax", 0x0100));
+                    items.push(Item::Ins(Ins::Int { n: 0x21 }));
+                    let raw: String = (0..*len).map(|i| (b'A' + (i % 23) as u8) as char).collect();
+                    stdin.push(ScriptLine { raw, newline: true, cls: "data", what: None });
+                }
+                items.push(mov16("ax", 0x0A00));
+                items.push(Item::Ins(Ins::Int { n: 0x21 }));
+                let raw: String = (0..*len).map(|i| (b'a' + (i % 26) as u8) as char).collect();
+                stdin.push(ScriptLine { raw, newline: k != 4, cls: "data", what: None });
+                items.push(Item::Ins(Ins::Print { what: PrintWhat::Range(0x0200, 0x0200 + 12) }));
+                items.push(Item::Ins(Ins::Print { what: PrintWhat::Reg }));
+                progs.push((Program { data: Vec::new(), items, interp: false, stdin, note: format!("services-long-line-{}", len) }, Layout::plain()));
+            }
             // the small corner of every console-output service: counts and columns 0, 1, 2 in every combination
             for cx in [0u16, 1, 2] {
                 for dl in [0u16, 1, 2, 9] {
